@@ -50,6 +50,7 @@ impl<'a> TreeWalkingInterpreter<'a> {
         match (operator, right) {
             (Operator::Minus, Ok(rhs)) => -rhs,
             (Operator::Not, Ok(rhs)) => !rhs,
+            (_, Err(error)) => Err(error), // propagate the error of the operand
             _ => Err(Error::InvalidUnaryOperator(operator)),
         }
     }
